@@ -173,8 +173,12 @@ def fhAll (q : TokReq) : Hdr :=
   (if fhChunked q then [(sTransferEncoding, sChunked)] else []) ++
   (if fhClose q then [(sConnection, sClose)] else [])
 
-/-- ctx.Host(): URI host, lower-cased -/
-def fhHost (q : TokReq) : Bytes := lowerB (hostOf q)
+def sSlashSlash : Bytes := ofString "//"
+
+/-- r.Host: ctx.Host() (the URI host, lower-cased); for an origin-form target that starts with "//" — which has no
+    authority — the Host header as sent (ConvertRequest asks the header, not the URI) -/
+def fhHost (q : TokReq) : Bytes :=
+  if sSlashSlash.isPrefixOf q.target then hostOf q else lowerB (hostOf q)
 
 /-- ConvertRequest (after the fixes): ProtoMinor from the protocol string; Host and Transfer-Encoding are not
     copied into r.Header -/
